@@ -75,12 +75,13 @@ def build(thorough):
     # exactly that input class excluded
     add('keys_unique', '', {})
     add('replicates', '', {})
+    add('exec_models', '', {})
     add('static_str_inputs', '', dict(VH_MAXSTR=12 if thorough else 8))
     add('static_str_inputs', 'excl_results', dict(VH_MAXSTR=12 if thorough else 8, VH_EXCL_RESULTS=1))
     # reachability twins
     tw = dict(VH_N=4, VH_NA=2, VH_NB=2, VH_PM=0)
     for f in ('exec_add', 'exec_context', 'insert_context_structure', 'replace_task', 'insert_workflow',
-              'add_operator', 'static_str_inputs', 'keys_unique', 'replicates'):
+              'add_operator', 'static_str_inputs', 'keys_unique', 'replicates', 'exec_models'):
         obs.append(Ob(f'{f}__twin', H, f + '__twin', 120, kind='twin', env=tw))
     # longest first
     heavy = {'insert_workflow': 0, 'exec_context': 1, 'replace_task': 2, 'add_operator': 3, 'exec_add': 4}
